@@ -114,9 +114,55 @@ def exact_diagonal_flag(ctx, rep, rule: str) -> None:
     rep.ob(rule, "diagonal-flag-cleared-when-not-diagonal", bool(ok and sets_false), chk.loc(first) if first is not None else chk.loc(), "the stored flag is cleared as soon as the (bias-corrected) factor matrix is not exactly diagonal, before it is handed to the matrix routine")
 
 
+def eigenvector_dispatch(ctx, rep, rule: str) -> None:
+    from ..dispatch import body_raises, find_chains, first_match, unknown_subclasses_rejected
+
+    repo = ctx.repo
+    fi = repo.func("matrix_functions:matrix_eigenvectors")
+    m = fi.module
+    chains = find_chains(repo, m, fi.node)
+    if len(chains) != 1:
+        raise AnalysisError(f"{rule}: expected one type-dispatch chain in matrix_eigenvectors, found {len(chains)}")
+    chain = chains[0]
+    base = repo.cls("matrix_functions_types:EigenvectorConfig")
+    want = {"EighEigenvectorConfig": "matrix_eigenvalue_decomposition", "QRConfig": "_compute_orthogonal_iterations"}
+    for ci in repo.concrete_subclasses(base):
+        arm = first_match(repo, chain, ci)
+        calls = [c for st in (arm.body if arm else []) for c in A.calls(st, nested=True) if A.callee_name(repo, m, c).startswith("matrix_functions.")]
+        names = [A.callee_name(repo, m, c).split(".")[-1] for c in calls]
+        ok = arm is not None and names == [want.get(ci.name)]
+        detail = f"{ci.name} -> {names} (documented {want.get(ci.name)})"
+        if ok:
+            c = calls[0]
+            cfgv = "eigenvector_computation_config"
+            passed = {k.arg: _norm(k.value) for k in c.keywords if _norm(k.value).startswith(cfgv + ".")}
+            fields = [f[0] for f in repo.all_fields(ci)]
+            solver = repo.func("matrix_functions:" + want[ci.name])
+            fwd = all(v == f"{cfgv}.{k}" for k, v in passed.items()) and set(passed) == (set(fields) & set(solver.params))
+            a_ok = _norm(c.args[0]) == "A" if c.args else _norm(A.keyword(c, "A")) == "A"
+            est_ok = ci.name != "QRConfig" or _norm(A.keyword(c, "eigenvectors_estimate")) == "eigenvectors_estimate"
+            picks_q = ci.name != "EighEigenvectorConfig" or any(isinstance(x, ast.Return) and isinstance(x.value, ast.Subscript) and _norm(x.value.slice) == "1" for x in arm.body)
+            ok = fwd and a_ok and est_ok and picks_q
+            detail += f"; forwards A: {a_ok}; config fields forwarded by name {sorted(passed)}: {fwd}; previous basis forwarded: {est_ok}; eigenvectors (index 1) returned: {picks_q}"
+        rep.ob(rule, f"eigenvector-dispatch:{ci.name}", ok, fi.loc(arm.node) if arm else fi.loc(), detail, sample=True)
+    last = chain[-1]
+    rep.ob(rule, "eigenvector-dispatch:fall-through", last.kind == "else" and body_raises(repo, m, last.body) == "NotImplementedError", fi.loc(last.node), "unknown eigenvector configs raise NotImplementedError")
+    bad = unknown_subclasses_rejected(repo, m, chain, repo.concrete_subclasses(base))
+    rep.ob(rule, "eigenvector-dispatch:unknown-subclasses-rejected", not bad, fi.loc(), f"unknown subclasses must raise NotImplementedError {bad[:2] if bad else ''}")
+    body = [x for x in fi.node.body if isinstance(x, ast.If)]
+    one = body[0] if body else None
+    ok = one is not None and "numel(A) == 1" in _norm(one.test) and len(one.body) == 1 and _norm(one.body[0]) == "return torch.ones_like(A)"
+    rep.ob(rule, "eigenvector-fast-path:1x1-is-one", ok, fi.loc(one) if one is not None else fi.loc(), "a 1-element input yields ones_like(A)")
+    dg = [x for x in body if _norm(x.test) == "is_diagonal"]
+    ok = len(dg) == 1 and len(dg[0].body) == 1 and isinstance(dg[0].body[0], ast.Return) and "torch.eye(" in _norm(dg[0].body[0]) and "A.shape[0]" in _norm(dg[0].body[0]) and "dtype=A.dtype" in _norm(dg[0].body[0])
+    rep.ob(rule, "eigenvector-fast-path:diagonal-is-identity", ok, fi.loc(dg[0]) if dg else fi.loc(), "a diagonal-flagged input yields the identity of A's size and dtype")
+
+
 def run(ctx, rep) -> None:
     repo = ctx.repo
     pts = ctx.engine("pts")
+    rep.rule("C03.8", "matrix_eigenvectors dispatch: eigh config -> eigendecomposition's eigenvectors, QR config -> orthogonal iterations with the previous basis, tolerance and iteration cap forwarded; fast paths; unknown configs raise")
+    rep.attempt("eigenvector_dispatch", eigenvector_dispatch, ctx, rep, "C03.8")
     rep.rule("C03.5", "the diagonal flag is exact (no tolerance) and is cleared before the matrix routine sees a non-diagonal factor")
     rep.attempt("exact_diagonal_flag", exact_diagonal_flag, ctx, rep, "C03.5")
     rep.rule("C03.1", "the eigenbasis refresh precedes the corrected-eigenvalue update, which runs on every update_preconditioners call")
